@@ -355,6 +355,15 @@ def check(model, rep):
     sx = SX(model)
     sx.loop_handler = reduction_loop
     sx.variable_kinds = VARIABLE_KINDS
+    # "while start <= t <= start + duration", "once theta >= theta_s": t and theta are the PRESENT instant and reading - a rule that
+    # keeps a reference to the time axis (or a sample list) taken at construction reads a dead object after Powertrain.reset
+    from sa.aliases import alias_findings
+    rule_classes = {c for b in ('RuleBase', 'MotorControlBase', 'SensorBase', 'Timer') for c in [b] + sorted(model.subclasses(b, strict=True))}
+    found, nscan = alias_findings(model, rule_classes)
+    for cname, f, ln, mod_, detail in found:
+        rep.violation('C15.pure', f'{cname}.{f}:alias', detail, f'{mod_}:{ln}')
+    if not found:
+        rep.holds('C15.pure', 'rules:alias', f'{nscan} rule / sensor / timer classes: none keeps a reference to a container its owner rebinds')
     check_pure(model, rep, sx)
     check_timer(model, rep, sx)
     check_constant(model, rep, sx)
@@ -362,6 +371,11 @@ def check(model, rep):
     check_proportional(model, rep, sx)
     check_limit(model, rep, sx)
     check_defined(model, rep)
+    # the rules' quantity arithmetic is interpreted natively; the operator triples it actually used are re-read from C06's dispatch model
+    from checks.solver_common import absorb_arith
+    used = sorted(t for t in sx.arith_log if 'number' not in (t[0], t[2]) or t[1] in '*/')
+    absorb_arith(model, rep, 'C15.dep.arith', used)
+    rep.analysed['operator_triples_used_by_rules'] = [' '.join(t) for t in used]
     rep.require('C15.window', 3)
     rep.require('C15.value', 12)
     rep.require('C15.limit-identity', 1)
